@@ -411,7 +411,10 @@ def pdu_wf(p):
     elif p.cls is MetadataPdu:
         fs += [p.file_size >= 0]
     elif p.cls is NakPdu:
-        fs += [p.start_of_scope >= 0, p.end_of_scope >= 0]
+        i = z3.Int("nk!i")
+        L = p.segment_requests.items
+        fs += [p.start_of_scope >= 0, p.end_of_scope >= 0,
+               z3.ForAll([i], z3.Implies(z3.And(0 <= i, i < L.n), z3.And(L.a[i] >= 0, L.b[i] >= 0)))]
     elif p.cls is AckPdu:
         fs += [one_of(p.directive_code_of_acked_pdu, [DirectiveType.EOF_PDU, DirectiveType.FINISHED_PDU])]
     return And_(*fs)
